@@ -11,6 +11,7 @@ One theorem per site about the GENERATED term:
 -/
 import Nitime.Model.C05
 import Nitime.Lemmas.C05Grid
+import Nitime.Lemmas.C05Hist
 import Nitime.Lemmas.Parseval
 
 namespace Nitime.C05.Props
@@ -314,5 +315,155 @@ theorem sinusoid_peak_bin {N : ℕ} (hN : 0 < N) {ζ : ℂ} (hζ : IsPrimitiveRo
 
 example : IsPrimitiveRoot (-1 : ℂ) 2 := by
   simpa using (IsPrimitiveRoot.neg_one 0 (by norm_num) : IsPrimitiveRoot (-1 : ℂ) 2)
+
+/-! ### read histories of one analyzer: a frequency vector, once handed out, stays the grid -/
+
+/-- along ANY history of reads (of the frequencies, of other results — whether or not their getters read
+the frequencies), `reset()`s and re-targetings, every frequency vector the caller was handed still
+holds, at the end, the grid that the site's formula gave when it was handed out -/
+theorem handed_out_frequency_vectors_stay_true (g : List ℚ) (evs : List Hist.Ev) :
+    ∀ p ∈ (Hist.run (Hist.init g) evs).handed, (Hist.run (Hist.init g) evs).heap[p.1]? = some p.2 :=
+  (Hist.inv_run evs _ (Hist.inv_init g)).1
+
+/-- without re-targeting: whatever was read in between, in whatever order, before and after, every
+handed-out vector (early references and late reads alike) shows the site's grid `g` at the end -/
+theorem read_history_views_are_grid (g : List ℚ) (evs : List Hist.Ev) (hn : Hist.NoRetarget evs) :
+    ∀ v ∈ Hist.finalViews (Hist.run (Hist.init g) evs), v = g := by
+  intro v hv
+  simp only [Hist.finalViews, List.mem_map] at hv
+  obtain ⟨p, hp, rfl⟩ := hv
+  have h1 := handed_out_frequency_vectors_stay_true g evs p hp
+  have h2 := Hist.handed_labels evs (Hist.init g) g rfl (by intro q hq; simp [Hist.init] at hq) hn p hp
+  rw [List.getD_eq_getElem?_getD, h1, h2]; rfl
+
+/-- one view per read of the frequencies -/
+theorem read_history_views_count (g : List ℚ) (evs : List Hist.Ev) :
+    (Hist.finalViews (Hist.run (Hist.init g) evs)).length
+      = (evs.filter fun e => match e with | .readFreq => true | _ => false).length := by
+  have key : ∀ (evs : List Hist.Ev) (s : Hist.St), (Hist.run s evs).handed.length
+      = s.handed.length + (evs.filter fun e => match e with | .readFreq => true | _ => false).length := by
+    intro evs
+    induction evs with
+    | nil => intro s; simp [Hist.run]
+    | cons e es ih =>
+      intro s
+      have hstep : (Hist.step s e).handed.length
+          = s.handed.length + (match e with | .readFreq => 1 | _ => 0) := by
+        cases e with
+        | readFreq => simp only [Hist.step, Hist.fire]; cases s.cache <;> simp
+        | readOther uses val => cases uses <;> simp only [Hist.step, Hist.fire] <;> cases s.cache <;> simp
+        | reset => simp [Hist.step]
+        | retarget g' => simp [Hist.step]
+      have := ih (Hist.step s e)
+      simp only [Hist.run, List.foldl_cons] at this ⊢
+      rw [this, hstep]
+      cases e <;> simp
+      all_goals omega
+  simpa [Hist.finalViews, Hist.init] using key evs (Hist.init g)
+
+/-- e.g. a Sparse/SeedCoherenceAnalyzer: its band of the generated `get_freqs` term, after any read history
+(`delay`, `coherence`, … before and after), is still the band of the true grid in every vector handed out -/
+theorem SparseCoherenceAnalyzer_history_views_are_true_band (pi Fs : ℚ) (N : ℕ) (lb : ℚ) (ub : Option ℚ)
+    (evs : List Hist.Ev) (hn : Hist.NoRetarget evs) :
+    ∀ v ∈ Hist.finalViews (Hist.run
+        (Hist.init (sliceBand (eval Grids.SparseCoherenceAnalyzer_frequencies pi Fs N) lb ub)) evs),
+      v = sliceBand (trueOneSided Fs N) lb ub := by
+  intro v hv
+  rw [read_history_views_are_grid _ evs hn v hv, SparseCoherenceAnalyzer_frequencies_is_true_grid]
+
+theorem SeedCoherenceAnalyzer_history_views_are_true_band (pi Fs : ℚ) (N : ℕ) (lb : ℚ) (ub : Option ℚ)
+    (evs : List Hist.Ev) (hn : Hist.NoRetarget evs) :
+    ∀ v ∈ Hist.finalViews (Hist.run
+        (Hist.init (sliceBand (eval Grids.SeedCoherenceAnalyzer_frequencies pi Fs N) lb ub)) evs),
+      v = sliceBand (trueOneSided Fs N) lb ub := by
+  intro v hv
+  rw [read_history_views_are_grid _ evs hn v hv, SeedCoherenceAnalyzer_frequencies_is_true_grid]
+
+-- non-vacuity: three hand-outs around a `delay`-like read and a reset, all `[0, 2, 4]`
+example : Hist.finalViews (Hist.run (Hist.init (trueOneSided 10 5))
+    [.readFreq, .readOther true [7], .readFreq, .reset, .readFreq]) = [[0, 2, 4], [0, 2, 4], [0, 2, 4]] := by
+  decide +kernel
+
+/-- contrast (the change class "a getter writes through the cached array", seeded change C05-6): one
+write through the cached reference and the vector handed out BEFORE it no longer shows the grid -/
+theorem alias_write_breaks_handed_out_vector :
+    Hist.finalViews (Hist.stepAliasWrite (Hist.step (Hist.init (trueOneSided 10 5)) .readFreq) (-1))
+      = [[-1, 2, 4]] := by decide +kernel
+
+/-! ### several live analyzers and their method dicts -/
+
+/-- as extracted from the four constructors: `method=None` builds a new dict there, and the treatment of a caller's
+dict was recognised (fails for, e.g., a module-level default dict shared by all analyzers) -/
+theorem constructors_build_their_default_dict :
+    Methods.recognised = true ∧ ∀ c : Two.Cls, Methods.freshDefault c = true := by
+  refine ⟨by decide, fun c => by cases c <;> decide⟩
+
+/-- the three coherence analyzers stamp their own input's rate into the dict they hold, in `__init__` -/
+theorem coherence_constructors_fill_fs : ∀ c : Two.Cls, c ≠ .spectral → (Methods.spec c).ctorFillsFs = true := by
+  intro c hc; cases c <;> first | decide | exact absurd rfl hc
+
+/-- as long as no dict object is held by two analyzers (a caller's dict that a constructor stores as the object
+itself is given to that one constructor only) and a caller's dict pins no other rate, every read of analyzer k —
+`.frequencies`, `.psd[0]`, `.cpsd[0]`, in any interleaving with constructions and reads of the others — returns what
+k's class computes at the rate of k's OWN input; for every treatment `spec` of the `method` argument -/
+theorem own_dict_analyzers_report_own_grid (spec : Two.Cls → Two.MSpec)
+    (hfill : ∀ c, c ≠ Two.Cls.spectral → (spec c).ctorFillsFs = true)
+    (G : Two.Cls → ℚ → List ℚ) (twoPi : ℚ) (evs : List Two.Ev)
+    (h : Two.histOk spec G twoPi Two.init evs) :
+    ∀ p ∈ (Two.run spec G twoPi Two.init evs).out,
+      ∃ a, (Two.run spec G twoPi Two.init evs).ans[p.1]? = some a ∧ p.2 = G a.cls a.rate :=
+  (Two.good_run spec G twoPi hfill evs _ (Two.good_init G) h).out
+
+/-- in particular when every analyzer is built with `method=None` (each constructor allocates its own dict) -/
+theorem method_none_analyzers_report_own_grid (spec : Two.Cls → Two.MSpec)
+    (hfill : ∀ c, c ≠ Two.Cls.spectral → (spec c).ctorFillsFs = true)
+    (G : Two.Cls → ℚ → List ℚ) (twoPi : ℚ) (evs : List Two.Ev) (h : Two.AllNone evs) :
+    ∀ p ∈ (Two.run spec G twoPi Two.init evs).out,
+      ∃ a, (Two.run spec G twoPi Two.init evs).ans[p.1]? = some a ∧ p.2 = G a.cls a.rate :=
+  own_dict_analyzers_report_own_grid spec hfill G twoPi evs (Two.histOk_of_allNone spec G twoPi evs _ h)
+
+/-- … for the constructors as they are in the source today -/
+theorem method_none_analyzers_report_own_grid_today (G : Two.Cls → ℚ → List ℚ) (twoPi : ℚ) (evs : List Two.Ev)
+    (h : Two.AllNone evs) :
+    ∀ p ∈ (Two.run Methods.spec G twoPi Two.init evs).out,
+      ∃ a, (Two.run Methods.spec G twoPi Two.init evs).ans[p.1]? = some a ∧ p.2 = G a.cls a.rate :=
+  method_none_analyzers_report_own_grid Methods.spec coherence_constructors_fill_fs G twoPi evs h
+
+/-- with the Welch grid: two `method=None` analyzers of any classes on inputs of rates `r0`, `r1` -/
+example (c0 c1 : Two.Cls) (r0 r1 : ℚ) (N : ℕ) :
+    ((Two.run Methods.spec (fun _ fs => trueOneSided fs N) 6 Two.init
+      [.new c0 r0 none, .new c1 r1 none, .freq 1, .freq 0]).out) = [(1, trueOneSided r1 N), (0, trueOneSided r0 N)] := by
+  cases c0 <;> cases c1 <;> simp [Two.run, Two.step, Two.init, Two.fillFs, Two.getFs, List.lookup, Methods.spec]
+
+/-- TODAY'S CODE: CoherenceAnalyzer stores the caller's dict itself and writes its input's rate into it -/
+theorem CoherenceAnalyzer_keeps_and_stamps_callers_dict :
+    (Methods.spec .coherence).keeps = true ∧ (Methods.spec .coherence).ctorFillsFs = true := by decide
+
+/-- … so with one caller's dict given to two CoherenceAnalyzers (the second constructor finds `'Fs'` there and keeps
+it) the second analyzer reports the grid of the FIRST input's rate, whatever the grid function -/
+theorem shared_user_dict_counterexample (spec : Two.Cls → Two.MSpec)
+    (hk : (spec .coherence).keeps = true ∧ (spec .coherence).ctorFillsFs = true)
+    (G : Two.Cls → ℚ → List ℚ) (twoPi : ℚ) :
+    (Two.run spec G twoPi Two.init
+      [.userDict none, .new .coherence 100 (some 0), .new .coherence 250 (some 0), .freq 1]).out
+      = [(1, G .coherence 100)] := by
+  simp [Two.run, Two.step, Two.init, Two.fillFs, Two.getFs, hk.1, hk.2]
+
+/-- … and that is not the second input's grid: `b.frequencies[-1] = 50` instead of `125` Hz at `NFFT = 64` -/
+theorem shared_user_dict_counterexample_grid :
+    (trueOneSided 100 64).getLast? = some 50 ∧ (trueOneSided 250 64).getLast? = some 125 := by
+  decide +kernel
+
+/-- mixed classes: the caller's dict, once stamped by a CoherenceAnalyzer's constructor, carries that rate into a
+SparseCoherenceAnalyzer built with it afterwards — whether that one keeps the object or copies it -/
+theorem shared_user_dict_counterexample_mixed (spec : Two.Cls → Two.MSpec)
+    (hk : (spec .coherence).keeps = true ∧ (spec .coherence).ctorFillsFs = true)
+    (G : Two.Cls → ℚ → List ℚ) (twoPi : ℚ) :
+    (Two.run spec G twoPi Two.init
+      [.userDict none, .new .coherence 100 (some 0), .new .sparse 250 (some 0), .freq 1]).out
+      = [(1, G .sparse 100)] := by
+  rcases h1 : (spec .sparse) with ⟨k, f, d⟩
+  cases k <;> cases f <;>
+    simp [Two.run, Two.step, Two.init, Two.fillFs, Two.getFs, hk.1, hk.2, h1]
 
 end Nitime.C05.Props
